@@ -94,7 +94,11 @@ def duplicate_clauses(ctx):
             any(isinstance(t, FuncInfo) and t is loader for t in res.resolve_call(ys[0].value))
         run.check(ok, 'DUP', where(repo, fl), func.qualname, u(fl).split('\n')[0], 'deferred copies are not replayed through the loader')
     # descriptor copy
-    tr = repo.func('dataflows.processors.duplicate:duplicate.func.traverse_resources')
+    # the generator that rebuilds the descriptor list (nested in the step or at module level), found through the rebuild statement
+    ds_ = stream.descr_signature(ctx, func)
+    if ds_[0] != 'sig' or not ds_[3].is_generator:
+        raise AnalysisError('duplicate: the generator that rebuilds the resource list was not found (%s)' % (ds_[1] if len(ds_) > 1 else ds_[0],))
+    tr = ctx.N(ds_[3])
     lp = [n for n in own_nodes(tr.node) if isinstance(n, ast.For) and pseudo(n.iter) == tr.params[0]][0]
     var = lp.target.id
     at2 = Atomizer(repo, res, tr, var, 'descr', scope_node=lp)
@@ -121,8 +125,12 @@ def duplicate_clauses(ctx):
         cexpr = second.value if isinstance(second, ast.Yield) else second.args[0]
         assigns = [n for n in nodes if isinstance(n, ast.Assign) and nodes.index(n) > nodes.index(first_yield)
                    and nodes.index(n) < nodes.index(second)]
-        deep = [n for n in assigns if any(isinstance(c, ast.Call) and res.external_name(c) == 'copy.deepcopy' and c.args
-                                          and var in names_in(c.args[0]) for c in ast.walk(n.value))]
+        same_ = {var}        # names that hold the original through plain copies (a helper's parameter bound to it)
+        for n in assigns:
+            if isinstance(n.value, ast.Name) and n.value.id in same_ and isinstance(n.targets[0], ast.Name):
+                same_.add(n.targets[0].id)
+        deep = [n for n in assigns if any(isinstance(c, ast.Call) and (res.external_name(c) == 'copy.deepcopy' or u(c.func) == 'copy.deepcopy')
+                                          and c.args and same_ & names_in(c.args[0]) for c in ast.walk(n.value))]
         changed = set()
         for n in assigns:
             t = n.targets[0]
@@ -302,7 +310,21 @@ def concatenate_target_schema(ctx):
     func = ctx.N(func0)
     fields_p = func0.parent.params[0] if func0.parent is not None else 'fields'
 
+    once_ = {}
+    for a_ in ast.walk(func.node):
+        if isinstance(a_, ast.Assign) and len(a_.targets) == 1 and isinstance(a_.targets[0], ast.Name):
+            once_.setdefault(a_.targets[0].id, []).append(a_.value)
+
+    def local_(e, depth=0):
+        # a local bound once to a part of the target descriptor (target_fields = target['schema']['fields']) stands for that part
+        if depth < 4 and isinstance(e, ast.Name) and len(once_.get(e.id, [])) == 1:
+            return local_(once_[e.id][0], depth + 1)
+        if depth < 4 and isinstance(e, ast.Subscript) and isinstance(e.value, ast.Name) and len(once_.get(e.value.id, [])) == 1:
+            return ast.Subscript(value=local_(e.value, depth + 1), slice=e.slice, ctx=ast.Load())
+        return e
+
     def is_target_fields(e):
+        e = local_(e)
         return isinstance(e, ast.Subscript) and isinstance(e.slice, ast.Constant) and e.slice.value == 'fields' and \
             isinstance(e.value, ast.Subscript) and isinstance(e.value.slice, ast.Constant) and e.value.slice.value == 'schema'
 
@@ -395,22 +417,33 @@ def concatenate_target_schema(ctx):
               'a requested field that no selected resource has is not declared in the target schema (its rows still carry it, as null)')
     # the row builder gets all keys of `fields` and the same mapping
     cat0 = repo.func('dataflows.processors.concatenate:concatenator')
-    calls = [c for c in own_nodes(func.node) if isinstance(c, ast.Call) and any(t is cat0 for t in ctx.res.resolve_call(c)
-                                                                               if isinstance(t, FuncInfo))] \
-        if False else [c for c in own_nodes(func.node) if isinstance(c, ast.Call) and isinstance(c.func, ast.Name) and c.func.id == cat0.node.name]
-    okc = len(calls) == 1 and len(calls[0].args) == 3
+    calls = []
+    for c in own_nodes(func.node):
+        if not isinstance(c, ast.Call):
+            continue
+        try:
+            eff = ctx.res.effective_call(c, func.module, func)      # arguments pre-bound by functools.partial merged in
+        except Exception:
+            eff = c
+        if isinstance(eff.func, ast.Name) and eff.func.id == cat0.node.name:
+            bound_ = dict(zip(cat0.params, eff.args))
+            bound_.update({k.arg: k.value for k in eff.keywords if k.arg})
+            calls.append((c, bound_))
+    okc = len(calls) == 1 and set(calls[0][1]) == set(cat0.params[:3])
     if okc:
-        a1 = calls[0].args[1]
+        call_, bound_ = calls[0]
+        a1 = bound_[cat0.params[1]]
         if isinstance(a1, ast.Name):
             # the value the name has when the stream loop starts: its last assignment before the call's statement
             defs = [a for a in own_nodes(func.node) if isinstance(a, ast.Assign) and pseudo(a.targets[0]) == a1.id
-                    and top_of[id(a)] < top_of[id(calls[0])]]
+                    and top_of[id(a)] < top_of[id(call_)]]
             defs.sort(key=lambda a: top_of[id(a)])
             last = defs[-1] if defs else None
-            okc = last is not None and keys_of_fields(last.value) and top_of[id(last)] > top_of[id(rest[0])] if rest else False
+            okc = bool(rest) and last is not None and keys_of_fields(last.value) and top_of[id(last)] > top_of[id(rest[0])]
         else:
             okc = keys_of_fields(a1)
-        okc = okc and mapping is not None and u(calls[0].args[2]) == mapping
+        okc = okc and mapping is not None and u(bound_[cat0.params[2]]) == mapping
+    calls = [c for c, _b in calls]
     run.check(okc, 'CATS', where(repo, calls[0]) if calls else func.where, func.qualname,
               'concatenator(chain, list(%s.keys()), <the mapping the schema was built with>)' % fields_p,
               'the row builder is not given all keys of `fields` (what is left of the needed names after the schema was built lacks the '
